@@ -1,7 +1,9 @@
 import Driver.Drv.Lru
+import Driver.Drv.Subs
 namespace Driver
 
 def drivers : List (String × CaseFn) := [
-  ("lru", Driver.Drv.Lru.runCase)]
+  ("lru", Driver.Drv.Lru.runCase),
+  ("subs", Driver.Drv.Subs.runCase)]
 
 end Driver
